@@ -175,6 +175,12 @@ def eq_cases(ls):
         out.append((["fe " + " ".join(t1 + t2 + ["sub"] + canon + ["eq"])], ["T" if (v1 - v2) % PP == s else "F"], None))
         out.append((["fe " + " ".join(t1 + t2 + ["mul"] + [(v1 * v2 % PP).to_bytes(32, "little").hex()] + ["eq"])], ["T"], None))
         out.append((["fe " + " ".join(t1 + t2 + ["eq"])], ["T" if v1 == v2 else "F"], None))
+        out.append((["fe " + " ".join(t1 + t2 + ["ne"])], ["T" if v1 != v2 else "F"], None))
+        out.append((["fe " + " ".join(t1 + t2 + ["add"] + canon + ["ne"])], ["F"], None))
+        # the by-value operator impls (they exist only in the 32-bit backend; the tokens fall back to the by-reference ones elsewhere)
+        for op, v in (("addv", v1 + v2), ("subv", v1 - v2), ("mulv", v1 * v2)):
+            out.append((["fe " + " ".join(t1 + t2 + [op, "bytes"])], [(v % PP).to_bytes(32, "little").hex()], None))
+        out.append((["fe " + " ".join(t1 + t2 + ["addv"] + t1 + t2 + ["subv", "mulv", "bytes"])], [((v1 + v2) * (v1 - v2) % PP).to_bytes(32, "little").hex()], None))
     for (t1, v1, _) in lf:
         out.append((["fe " + " ".join(t1 + t1 + ["sub", "zero", "eq"])], ["T"], None))
         out.append((["fe " + " ".join(t1 + ["neg"] + [((-v1) % PP).to_bytes(32, "little").hex(), "eq"])], ["T"], None))
@@ -190,6 +196,7 @@ def eq_cases(ls):
                     continue
                 out.append((["fe %s %s eq" % (le(base).hex(), le(o).hex())], ["F"], None))
                 out.append((["fe %s %s sub isnz" % (le(base).hex(), le(o).hex())], ["T"], None))
+    out.append((["sc_consts"], ["%s.%s.TF" % (le(0).hex(), le(1).hex())], None))
     for name, v in (("zero", 0), ("one", 1), ("sqrtm1", curve.SQRTM1), ("d", curve.D), ("d2", 2 * curve.D % PP)):
         out.append((["fe %s bytes" % name], [v.to_bytes(32, "little").hex()], None))
     return out
@@ -628,6 +635,14 @@ def group_cases_law():
             e3 = curve.pt_encode(curve.base_mul((2 * s) % L)).hex()
             out.append((["ge base:%s base:%s add enc drop base:%s base:%s sub enc drop base:%s dbl enc" % (le(s).hex(), le(t).hex(), le(s).hex(), le(t).hex(), le(s).hex())],
                         ["%s.%s.%s" % (e1, e2, e3)], None))
+            # operands that come out of earlier group arithmetic (projective Z != 1) through the by-value subtraction, the doubled
+            # operand on either side, and sums of sums
+            e4 = curve.pt_encode(curve.base_mul((2 * s - t) % L)).hex()
+            e5 = curve.pt_encode(curve.base_mul((s - 2 * t) % L)).hex()
+            e6 = curve.pt_encode(curve.base_mul((2 * s + 2 * t) % L)).hex()
+            out.append((["ge base:%s base:%s subv enc drop base:%s dbl base:%s subv enc drop base:%s base:%s dbl subv enc drop base:%s base:%s add dup add enc"
+                         % (le(s).hex(), le(t).hex(), le(s).hex(), le(t).hex(), le(s).hex(), le(t).hex(), le(s).hex(), le(t).hex())],
+                        ["%s.%s.%s.%s" % (e2, e4, e5, e6)], None))
     return out
 
 
